@@ -386,6 +386,32 @@ func TestC20(t *testing.T) {
 		if nontrivial {
 			R.Distinct(fmt.Sprint(seq))
 		}
+		if len(rs) >= 2 && len(rs) <= 3 {
+			// two Metrics instances on one registry (e.g. two attacks sharing an endpoint): whatever an instance
+			// observes after its Register returned nil must be exported; if Register refuses the second
+			// instance the caller knows that its observations are not exported
+			reg := prometheus.NewRegistry()
+			pm1, pm2 := prom.NewMetrics(), prom.NewMetrics()
+			err1, err2 := pm1.Register(reg), pm2.Register(reg)
+			if err1 == nil {
+				h := len(rs) / 2
+				var exported []vegeta.Result
+				for i := range rs[:h] {
+					pm1.Observe(&rs[i])
+					exported = append(exported, rs[i])
+				}
+				if err2 == nil {
+					for i := h; i < len(rs); i++ {
+						pm2.Observe(&rs[i])
+						exported = append(exported, rs[i])
+					}
+				}
+				mfs, err := reg.Gather()
+				R.Eval(1)
+				R.Trans(len(exported) + 3)
+				found[ji] = append(found[ji], check("two-instances-one-registry", exported, mfs, err)...)
+			}
+		}
 		if len(rs) >= 2 {
 			mfs, err := observe(rs, 2)
 			R.Eval(1)
